@@ -12,7 +12,7 @@ Step(e) ==
   /\ IF e.created = "ok" /\ Scan(e.pattern) # "Ok" THEN PrintT(<<"DIVERGE", "quoting_error_predicted_by_scanner_but_pattern_accepted", l>>) ELSE TRUE
   \* reference clauses: the field-level grammar (PatternGrammar.tla) predicts acceptance and rejection for the types it covers
   \* (single letters that stand for the culture's own pattern texts are as good as those texts: not predicted)
-  /\ IF e.type \in GrammarTypes /\ Len(e.pattern) # 1 /\ e.created \in {"ok", "InvalidPatternError"}
+  /\ IF Covered(e.type, e.pattern) /\ Len(e.pattern) # 1 /\ e.created \in {"ok", "InvalidPatternError"}
      THEN \E g \in {Grammar(e.type, e.pattern)} :
           /\ (IF e.created = "ok" /\ g # "Ok" THEN PrintT(<<"DIVERGE", "grammar_rejects_but_pattern_accepted", l, g>>) ELSE TRUE)
           /\ (IF e.created # "ok" /\ g = "Ok" THEN PrintT(<<"DIVERGE", "grammar_accepts_but_pattern_rejected", l>>) ELSE TRUE)
